@@ -55,6 +55,7 @@ type Exec struct {
 	choiceSeq    []int
 	explicitIn   []int
 	concreteMode bool
+	readings     []*Term
 	inInit       int
 	ld           *Loaded
 }
